@@ -123,196 +123,3 @@ Section BinaryOverSelectors.
       + exact Href.
   Qed.
 End BinaryOverSelectors.
-
-(* ---- arbitrary trees of joins over selectors (C01) ------------------------------ *)
-
-Record jparams := mkJP {
-  jp_op : Z -> Z -> Z * bool; jp_b2v : bool -> Z; jp_on : bool; jp_ml : list N; jp_incl : list N;
-  jp_card : card; jp_bool : bool; jp_drops : bool }.
-
-Inductive jtree :=
-| JLeaf (ls : list labels) (sers : list (list sample)) (off : Z)
-| JJoin (p : jparams) (l r : jtree)
-(* a per-sample operator: instant functions, unary minus, vector/scalar arithmetic and
-   comparisons with a literal (Func.func_step); [drops] = the metric name is dropped *)
-| JMap (drops : bool) (f : Z -> option Z) (t : jtree).
-
-(* Series() of a node *)
-Fixpoint jseries (t : jtree) : list labels :=
-  match t with
-  | JLeaf ls _ _ => ls
-  | JJoin p l r => op_series (jp_on p) (jp_ml p) (jp_incl p) (jp_card p) (jp_bool p) (jp_drops p) (jseries l) (jseries r)
-  | JMap drops _ t => map (fun m => if drops then del_name m else m) (jseries t)
-  end.
-
-Fixpoint zip_vecs (L R : list (Z * list (nat * Z))) : list (Z * list (nat * Z) * list (nat * Z)) :=
-  match L, R with
-  | (t, a) :: L', (_, b) :: R' => (t, a, b) :: zip_vecs L' R'
-  | _, _ => []
-  end.
-
-(* the engine: the stream of step vectors a node hands to its consumer *)
-Fixpoint jrun (cf : cfg) (w : window) (t : jtree) : list (Z * list (nat * Z)) + step_err :=
-  match t with
-  | JLeaf _ sers off => inl (map (fun sv => (svT sv, vec_of sv)) (concat (run cf w (PSelect sers off))))
-  | JJoin p l r =>
-      match jrun cf w l, jrun cf w r with
-      | inl L, inl R =>
-          exec_steps Z 0 (jp_op p) (jp_b2v p) (jp_card p) (jp_bool p)
-                     (op_hidx (jp_on p) (jp_ml p) (jp_card p) (jseries l) (jseries r))
-                     (op_lidx (jp_on p) (jp_ml p) (jp_card p) (jseries l) (jseries r))
-                     (zip_vecs L R) (new_table Z 0 (length (jseries (JJoin p l r))))
-      | inr e, _ => inr e
-      | _, inr e => inr e
-      end
-  | JMap _ f t =>
-      match jrun cf w t with
-      | inl strm => inl (map (fun tv => (fst tv, func_step Z f (snd tv))) strm)
-      | inr e => inr e
-      end
-  end.
-
-(* the reference at one timestamp *)
-Fixpoint jref (lb : Z) (t : jtree) (ts : Z) : option (list (labels * Z)) :=
-  match t with
-  | JLeaf ls sers off => Some (labelled Z ls (vec_of (select_step lb off sers ts)))
-  | JJoin p l r =>
-      match jref lb l ts, jref lb r ts with
-      | Some L, Some R =>
-          ref_step Z (jp_op p) (jp_b2v p) (the_sig (jp_on p) (jp_ml p))
-                   (ref_result_metric (jp_drops p) (jp_bool p) (jp_card p) (jp_on p) (jp_ml p) (jp_incl p))
-                   (jp_card p) (jp_bool p) L R
-      | _, _ => None
-      end
-  | JMap drops f t =>
-      match jref lb t ts with
-      | Some smp => Some (flat_map (fun mv => match f (snd mv) with
-                                            | Some v => [((if drops then del_name (fst mv) else fst mv), v)]
-                                            | None => []
-                                            end) smp)
-      | None => None
-      end
-  end.
-
-Fixpoint jok (t : jtree) : Prop :=
-  match t with
-  | JLeaf ls sers _ => length ls = length sers /\ Forall sorted_ts sers
-  | JJoin p l r =>
-      jok l /\ jok r /\
-      one_side_unique (jp_on p) (jp_ml p) (one_side_series (jp_card p) (jseries l) (jseries r)) /\
-      (is_one_to_one (jp_card p) = true -> jp_incl p = [])
-  | JMap _ _ t => jok t
-  end.
-
-Lemma nth_map_labels (g : labels -> labels) (l : list labels) i : (i < length l)%nat ->
-  nth i (map g l) [] = g (nth i l []).
-Proof. intros Hi. rewrite (nth_indep _ [] (g [])) by (rewrite map_length; assumption). apply map_nth. Qed.
-
-Lemma func_step_fst (f : Z -> option Z) (vec : list (nat * Z)) :
-  map fst (func_step Z f vec) = map fst (filter (fun iv => match f (snd iv) with Some _ => true | None => false end) vec).
-Proof. unfold func_step. induction vec as [|iv vec IH]; simpl; [reflexivity|]. destruct (f (snd iv)); simpl; rewrite IH; reflexivity. Qed.
-
-Lemma NoDup_map_filter {A B} (g : A -> B) (p : A -> bool) (l : list A) : NoDup (map g l) -> NoDup (map g (filter p l)).
-Proof.
-  induction l as [|a l IH]; simpl; intros H; [constructor|]. inversion H as [|? ? Hn Hnd]; subst.
-  destruct (p a); simpl; [|apply IH; assumption]. constructor; [|apply IH; assumption].
-  intros Hin. apply Hn. apply in_map_iff in Hin. destruct Hin as [x [Ex Hx]]. apply filter_In in Hx. rewrite <- Ex. apply in_map. tauto.
-Qed.
-
-Lemma zip_vecs_map (fl fr : Z -> list (nat * Z)) (g : list Z) :
-  zip_vecs (map (fun ts => (ts, fl ts)) g) (map (fun ts => (ts, fr ts)) g) = map (fun ts => (ts, fl ts, fr ts)) g.
-Proof. induction g as [|t g IH]; simpl; [reflexivity|]. rewrite IH. reflexivity. Qed.
-
-Definition good_vec (n : nat) (vec : list (nat * Z)) : Prop :=
-  (forall iv, In iv vec -> (fst iv < n)%nat) /\ NoDup (map fst vec).
-
-Lemma increasing_of_grid (f : Z -> Z * list (nat * Z) * list (nat * Z)) prev (ts : list Z) :
-  (forall t, fst (fst (f t)) = t) -> StreamWF.increasing ts -> Forall (fun t => prev < t) ts ->
-  BinProofs.increasing Z prev (map f ts).
-Proof.
-  intros Hf. revert prev. induction ts as [|t ts IH]; intros prev Hi Hp; simpl; [exact I|].
-  destruct Hi as [Hlt Hi]. inversion Hp; subst. rewrite Hf. split; [assumption|]. apply IH; assumption.
-Qed.
-
-(* C01 for trees of binary operators over selectors, e.g. (a + on(x) b) * ignoring(y) group_left c:
-   every node's stream is a function of the grid timestamp; its sample IDs are
-   distinct and name series of the node; and at every timestamp at which the
-   reference evaluation of the node succeeds, the node's samples are a
-   permutation of the reference's. *)
-Theorem jtree_matches_reference cf w :
-  (0 < c_shards cf)%nat -> (0 < c_batch cf)%nat -> 0 <= c_lookback cf -> wf_window w -> noT < w_start w ->
-  forall t, jok t ->
-  exists f,
-    jrun cf w t = inl (map (fun ts => (ts, f ts)) (grid w)) /\
-    forall ts, good_vec (length (jseries t)) (f ts) /\
-               forall R, jref (c_lookback cf) t ts = Some R -> Permutation (labelled Z (jseries t) (f ts)) R.
-Proof.
-  intros HN HB Hlb Hw Hstart. induction t as [ls sers off|p l IHl r IHr|drops f t IH]; intros Hok.
-  - destruct Hok as [Hlen Hs]. exists (fun ts => vec_of (select_step (c_lookback cf) off sers ts)). split.
-    + cbn [jrun]. rewrite (run_covers_grid cf w (PSelect sers off) HN HB Hlb Hw Hs). simpl denote. rewrite map_map.
-      f_equal. apply map_ext. intros ts. rewrite select_step_T. reflexivity.
-    + intros ts. split.
-      * simpl. rewrite Hlen. apply (vec_of_good _ _ (select_step_wf (c_lookback cf) off sers ts)).
-      * intros R HR. simpl in HR. inversion HR; subst. apply Permutation_refl.
-  - destruct Hok as [Hokl [Hokr [HA Hincl]]].
-    destruct (IHl Hokl) as [fl [El Pl]]. destruct (IHr Hokr) as [fr [Er Pr]].
-    exists (fun ts => pure_step Z (jp_op p) (jp_b2v p) (jp_card p) (jp_bool p)
-                        (op_hidx (jp_on p) (jp_ml p) (jp_card p) (jseries l) (jseries r))
-                        (op_lidx (jp_on p) (jp_ml p) (jp_card p) (jseries l) (jseries r)) (fl ts) (fr ts)).
-    assert (Hgood : forall ts, good_step Z (jseries l) (jseries r) (ts, fl ts, fr ts)).
-    { intros ts. destruct (Pl ts) as [[A1 A2] _]. destruct (Pr ts) as [[B1 B2] _]. unfold good_step. simpl. repeat split; assumption. }
-    split.
-    + cbn [jrun]. rewrite El, Er, zip_vecs_map.
-      rewrite (exec_is_pairing_any Z 0 (jp_op p) (jp_b2v p) (jp_on p) (jp_ml p) (jp_incl p) (jp_card p) (jp_bool p) (jp_drops p)
-                 (jseries l) (jseries r) HA _ (w_start w - 1) ltac:(lia)).
-      * rewrite map_map. reflexivity.
-      * apply increasing_of_grid; [reflexivity| |].
-        -- destruct (Z.eq_dec (w_step w) 0) as [E0|NE0].
-           ++ rewrite (grid_instant (c_batch cf) w HB E0). simpl. split; [constructor|exact I].
-           ++ apply grid_increasing_list. unfold wf_window in Hw. lia.
-        -- apply Forall_forall. intros t Ht. unfold grid in Ht. apply in_map_iff in Ht. destruct Ht as [k [<- _]].
-           unfold grid_at. unfold wf_window in Hw. nia.
-      * apply Forall_forall. intros s Hs. apply in_map_iff in Hs. destruct Hs as [ts [<- _]]. apply Hgood.
-    + intros ts.
-      pose proof (step_ok_any Z 0 (jp_on p) (jp_ml p) (jp_incl p) (jp_card p) (jp_bool p) (jp_drops p) (jseries l) (jseries r) HA
-                    (ts, fl ts, fr ts) (Hgood ts)) as Hstep. simpl in Hstep.
-      split.
-      * split.
-        -- intros iv Hiv.
-           pose proof (pure_step_ids_in_range Z (jp_op p) (jp_b2v p) (jp_on p) (jp_ml p) (jp_card p) (jp_bool p)
-                         (jseries l) (jseries r) _ _ _ Hstep iv Hiv) as Hr.
-           unfold new_table in Hr. rewrite repeat_length in Hr. exact Hr.
-        -- apply pure_step_ids_unique. destruct Hstep as [_ [_ H]]. exact H.
-      * intros R HR. simpl in HR.
-        destruct (jref (c_lookback cf) l ts) as [L0|] eqn:EL; [|discriminate].
-        destruct (jref (c_lookback cf) r ts) as [R0|] eqn:ER; [|discriminate].
-        destruct (Pl ts) as [_ PL]. destruct (Pr ts) as [_ PR].
-        specialize (PL L0 EL). specialize (PR R0 ER).
-        destruct (ref_step_permutation Z (jp_op p) (jp_b2v p) (the_sig (jp_on p) (jp_ml p))
-                    (ref_result_metric (jp_drops p) (jp_bool p) (jp_card p) (jp_on p) (jp_ml p) (jp_incl p))
-                    (jp_card p) (jp_bool p) L0 R0 _ _ R (Permutation_sym PL) (Permutation_sym PR) HR) as [out' [Href' Pout]].
-        pose proof (join_step_permutation Z (jp_op p) (jp_b2v p) (jp_on p) (jp_ml p) (jp_incl p) (jp_card p) (jp_bool p) (jp_drops p)
-                      0 (jseries l) (jseries r) HA Hincl (ts, fl ts, fr ts) out' (Hgood ts) Href') as Pstep.
-        eapply Permutation_trans; [exact Pstep|apply Permutation_sym; exact Pout].
-  - destruct (IH Hok) as [g [Eg Pg]].
-    exists (fun ts => func_step Z f (g ts)). split.
-    + cbn [jrun]. rewrite Eg. rewrite map_map. reflexivity.
-    + intros ts. destruct (Pg ts) as [[G1 G2] PG]. split.
-      * split.
-        -- intros iv Hiv. simpl. rewrite map_length. unfold func_step in Hiv. apply in_flat_map in Hiv.
-           destruct Hiv as [x [Hx Hiv]]. destruct (f (snd x)); [|destruct Hiv]. destruct Hiv as [<-|[]]. simpl. apply G1. assumption.
-        -- rewrite func_step_fst. apply NoDup_map_filter. assumption.
-      * intros R HR. simpl in HR. destruct (jref (c_lookback cf) t ts) as [S0|] eqn:ES; [|discriminate].
-        inversion HR; subst R. clear HR. specialize (PG S0 eq_refl).
-        assert (E : labelled Z (jseries (JMap drops f t)) (func_step Z f (g ts)) =
-                    flat_map (fun mv => match f (snd mv) with
-                                        | Some v => [((if drops then del_name (fst mv) else fst mv), v)]
-                                        | None => []
-                                        end) (labelled Z (jseries t) (g ts))).
-        { unfold labelled, func_step. simpl jseries. generalize G1. generalize (g ts). intros vec Hr.
-          induction vec as [|iv vec IHv]; simpl; [reflexivity|].
-          rewrite map_app, IHv by (intros x Hx; apply Hr; right; assumption).
-          destruct (f (snd iv)) as [v|]; simpl; [|reflexivity]. f_equal. f_equal.
-          apply nth_map_labels. apply Hr. left. reflexivity. }
-        rewrite E. apply Permutation_flat_map. exact PG.
-Qed.
